@@ -49,6 +49,19 @@ func Like(p1 value.Primary, p2 value.Primary) ternary.Value {
 }
 
 func matchText(text []rune, pattern []rune) ternary.Value {
+	return matchTextMemo(text, pattern, make(map[[2]int]ternary.Value))
+}
+
+// matchTextMemo remembers the result for each pair of remaining text and remaining pattern (both are suffixes of the
+// originals, so their lengths identify them). Without it a pattern with several '%' retries the same pairs again and
+// again, and the time grows exponentially with the number of '%'.
+func matchTextMemo(text []rune, pattern []rune, memo map[[2]int]ternary.Value) (result ternary.Value) {
+	key := [2]int{len(text), len(pattern)}
+	if t, ok := memo[key]; ok {
+		return t
+	}
+	defer func() { memo[key] = result }()
+
 	anyRunesMinLen, anyRunesMaxLen, searchWord, restPattern := matchCondition(pattern)
 
 	anyRunes := text
@@ -60,7 +73,7 @@ func matchText(text []rune, pattern []rune) ternary.Value {
 		}
 
 		idx := utf8.RuneCountInString(textStr[:bidx])
-		if anyRunesMaxLen < 0 && matchText(text[idx+1:], pattern) == ternary.TRUE {
+		if anyRunesMaxLen < 0 && matchTextMemo(text[idx+1:], pattern, memo) == ternary.TRUE {
 			return ternary.TRUE
 		}
 		anyRunes = text[:idx]
@@ -77,7 +90,7 @@ func matchText(text []rune, pattern []rune) ternary.Value {
 		return ternary.ConvertFromBool(len(anyRunes)+len(searchWord) == len(text))
 	}
 
-	return matchText(text[len(anyRunes)+len(searchWord):], restPattern)
+	return matchTextMemo(text[len(anyRunes)+len(searchWord):], restPattern, memo)
 }
 
 func matchCondition(pattern []rune) (anyRunesMinLen int, anyRunesMaxLen int, searchWord []rune, restPattern []rune) {
